@@ -15,11 +15,69 @@ use serde_json::json;
 pub enum MateCase {
     /// random small-material position: kings + 1-6 men; labelled by the model's solver, unlabelled
     /// candidates are counted as rejected
-    Small { men: Vec<(u8, u8)>, wk: u8, bk: u8, white: bool, sample: u8, via_uci: bool },
+    Small {
+        men: Vec<(u8, u8)>,
+        wk: u8,
+        bk: u8,
+        white: bool,
+        sample: u8,
+        via_uci: bool,
+        /// index into HISTORY_PLIES: the position is reached at the end of a game record of that many plies
+        /// (both sides shuffle a piece out and back), as after `position … moves …`
+        #[serde(default)]
+        history: u8,
+    },
     /// end of a walk (middlegames): labelled the same way
     WalkEnd { walk: Walk, sample: u8 },
     /// a labelled position given as text (enumerations, shrunk form)
-    Fen { fen: String, via_uci: bool },
+    Fen {
+        fen: String,
+        via_uci: bool,
+        #[serde(default)]
+        history: u8,
+    },
+}
+
+pub const HISTORY_PLIES: [usize; 8] = [0, 0, 0, 0, 40, 160, 300, 380];
+
+/// A four-ply cycle a, b, a-back, b-back of quiet non-pawn moves that returns to `p`
+fn shuffle_cycle(p: &Pos) -> Option<[RMove; 4]> {
+    let quiet = |q: &Pos| -> Vec<RMove> { q.legal().into_iter().filter(|&m| !q.is_capture(m) && m.kind == K_NORMAL && m.promo == 0 && q.b[m.from as usize].to_ascii_lowercase() != b'p').collect() };
+    for a in quiet(p) {
+        let p1 = p.make(a);
+        for b in quiet(&p1) {
+            let p2 = p1.make(b);
+            let (ba, bb) = (RMove { from: a.to, to: a.from, promo: 0, kind: K_NORMAL }, RMove { from: b.to, to: b.from, promo: 0, kind: K_NORMAL });
+            if !p2.legal().contains(&ba) {
+                continue;
+            }
+            let p3 = p2.make(ba);
+            if p3.legal().contains(&bb) && p3.make(bb) == *p {
+                return Some([a, b, ba, bb]);
+            }
+        }
+    }
+    None
+}
+
+/// The engine game for `p`, optionally at the end of a record of `plies` shuffle plies
+fn game_with_history(p: &Pos, plies: usize) -> Result<(Game, usize), Fail> {
+    let mut g = Game::new(&p.fen6()).map_err(|e| Fail::new("sane-position-not-importable", e.to_string()))?;
+    let mut done = 0;
+    if plies >= 4 {
+        if let Some(cycle) = shuffle_cycle(p) {
+            while done + 4 <= plies {
+                for m in cycle {
+                    let Some(em) = crate::eng::find_legal(&mut g, &m.uci()) else {
+                        return Err(Fail::new("legal-move-not-offered", format!("{} in {}", m.uci(), g.fen())));
+                    };
+                    g.push_history(em);
+                }
+                done += 4;
+            }
+        }
+    }
+    Ok((g, done))
 }
 
 pub struct C10;
@@ -80,10 +138,14 @@ fn label(p: &Pos, want_m2: bool) -> Label {
 }
 
 impl C10 {
-    fn judge(&self, p: &Pos, lab: Label, via_uci: bool, ev: &mut Ev) -> Result<(), Fail> {
-        let fen = p.fen6();
-        let case = |via: bool| serde_json::to_value(MateCase::Fen { fen: fen.clone(), via_uci: via }).unwrap();
-        let g = Game::new(&fen).map_err(|e| Fail::new("sane-position-not-importable", e.to_string()))?;
+    fn judge(&self, p: &Pos, lab: Label, via_uci: bool, history: u8, ev: &mut Ev) -> Result<(), Fail> {
+        let p_fen = p.fen6();
+        let case = |via: bool| serde_json::to_value(MateCase::Fen { fen: p_fen.clone(), via_uci: via, history }).unwrap();
+        let (g, plies_done) = game_with_history(p, HISTORY_PLIES[history as usize % HISTORY_PLIES.len()])?;
+        let fen = if plies_done > 0 { format!("{} (at the end of a game record of {} plies)", p_fen, plies_done) } else { p_fen.clone() };
+        if plies_done > 0 {
+            ev.class(if plies_done >= 160 { "labelled_positions_after_160_or_more_plies_of_history" } else { "labelled_positions_after_40_plies_of_history" });
+        }
         let search = |depth: Option<u8>| -> Result<srch::SearchOut, Fail> {
             let mut t = srch::new_table();
             let out = srch::run_search(&g, &mut t, depth, 15_000);
@@ -180,7 +242,7 @@ impl C10 {
         }
         if via_uci && lab != Label::None {
             let mut sess = Session::start(&[]).map_err(|e| Fail::new("harness", e))?;
-            sess.send(&format!("position fen {}", fen));
+            sess.send(&format!("position fen {}", p_fen));
             sess.send(match lab {
                 Label::Mate2 => "go depth 6",
                 _ => "go depth 4",
@@ -218,7 +280,7 @@ impl Prop for C10 {
     }
 
     fn rule(&self) -> String {
-        "Cases: random small-material positions (kings + 1-6 men) and ends of generated walks, labelled by the reference model's own solver: no legal move; mate in 1; forced mate in 2 (no mate in 1; a move after which the opponent has a reply and every reply allows mate in 1); everything else is counted as an unlabelled candidate and not searched. Fresh table each time. Mate in 1: depth 3, 4, 5 and an unlimited search must return a mating move, and the unlimited search must return by itself with no iteration beyond depth 5. Mate in 2: depth 5, 6 and unlimited must return a key move or a move after which the model can still prove a forced mate within 3 more moves (solver budget exhaustion = inconclusive); unlimited search must end by itself at depth <= 7. No legal move: the search returns no move (and the binary prints `bestmove none`). A sample goes through the real binary. Thorough adds the exhaustive KQK and KRK tables. evaluations = searches judged. Non-trivial = every labelled position; distinct by position.".into()
+        "Cases: random small-material positions (kings + 1-6 men) and ends of generated walks, labelled by the reference model's own solver: no legal move; mate in 1; forced mate in 2 (no mate in 1; a move after which the opponent has a reply and every reply allows mate in 1); everything else is counted as an unlabelled candidate and not searched. Fresh table each time; half of the labelled positions stand at the end of a game record of 40, 160, 300 or 380 plies (both sides shuffling a piece out and back), as after `position … moves …`. Mate in 1: depth 3, 4, 5 and an unlimited search must return a mating move, and the unlimited search must return by itself with no iteration beyond depth 5. Mate in 2: depth 5, 6 and unlimited must return a key move or a move after which the model can still prove a forced mate within 3 more moves (solver budget exhaustion = inconclusive); unlimited search must end by itself at depth <= 7. No legal move: the search returns no move (and the binary prints `bestmove none`). A sample goes through the real binary. Thorough adds the exhaustive KQK and KRK tables. evaluations = searches judged. Non-trivial = every labelled position; distinct by position.".into()
     }
 
     fn assumptions(&self) -> Vec<String> {
@@ -243,32 +305,32 @@ impl Prop for C10 {
     fn strategy(&self, _ctx: &Ctx) -> BoxedStrategy<MateCase> {
         let men = proptest::collection::vec((any::<u8>(), 0u8..64), 1..7);
         prop_oneof![
-            9 => (men, 0u8..64, 0u8..64, any::<bool>(), any::<u8>(), prop::bool::weighted(0.05))
-                .prop_map(|(men, wk, bk, white, sample, via_uci)| MateCase::Small { men, wk, bk, white, sample, via_uci }),
+            9 => (men, 0u8..64, 0u8..64, any::<bool>(), any::<u8>(), prop::bool::weighted(0.05), 0u8..8)
+                .prop_map(|(men, wk, bk, white, sample, via_uci, history)| MateCase::Small { men, wk, bk, white, sample, via_uci, history }),
             1 => (walk_strategy(false), any::<u8>()).prop_map(|(walk, sample)| MateCase::WalkEnd { walk, sample }),
         ]
         .boxed()
     }
 
     fn check(&self, _ctx: &Ctx, case: &MateCase, ev: &mut Ev) -> Result<(), Fail> {
-        let (p, sample, via_uci) = match case {
-            MateCase::Small { men, wk, bk, white, sample, via_uci } => match build_small(men, *wk, *bk, *white) {
-                Some(p) => (p, *sample, *via_uci),
+        let (p, sample, via_uci, history) = match case {
+            MateCase::Small { men, wk, bk, white, sample, via_uci, history } => match build_small(men, *wk, *bk, *white) {
+                Some(p) => (p, *sample, *via_uci, *history),
                 None => {
                     ev.skip("construction did not yield a sane position");
                     return Ok(());
                 }
             },
             MateCase::WalkEnd { walk, sample } => match resolve_walk(walk) {
-                Some(r) if search_friendly(&r.end) => (r.end, *sample, false),
+                Some(r) if search_friendly(&r.end) => (r.end, *sample, false, 0u8),
                 _ => {
                     ev.skip("construction did not yield a sane position");
                     return Ok(());
                 }
             },
-            MateCase::Fen { fen, via_uci } => {
+            MateCase::Fen { fen, via_uci, history } => {
                 let p = Pos::from_fen(fen).map_err(|e| Fail::new("harness", e))?;
-                (p, 0, *via_uci)
+                (p, 0, *via_uci, *history)
             }
         };
         // the mate-in-two labelling is the expensive part: look for it on one candidate in three
@@ -277,7 +339,7 @@ impl Prop for C10 {
             ev.skip("candidate without a label (no mate in 1 / forced mate in 2 / dead root)");
             return Ok(());
         }
-        self.judge(&p, lab, via_uci, ev)
+        self.judge(&p, lab, via_uci, history, ev)
     }
 
     fn enumerate(&self, ctx: &Ctx, ev: &mut Ev, report: &mut dyn FnMut(MateCase, Fail)) {
@@ -296,8 +358,8 @@ impl Prop for C10 {
             }
             let p = Pos::from_fen(f).unwrap();
             let lab = label(&p, true);
-            if let Err(fail) = self.judge(&p, lab, true, ev) {
-                report(MateCase::Fen { fen: f.to_string(), via_uci: true }, fail);
+            if let Err(fail) = self.judge(&p, lab, true, (i % 8) as u8, ev) {
+                report(MateCase::Fen { fen: f.to_string(), via_uci: true, history: (i % 8) as u8 }, fail);
                 return;
             }
         }
@@ -314,8 +376,8 @@ impl Prop for C10 {
                         return;
                     }
                     n += 1;
-                    if let Err(f) = self.judge(p, lab, false, ev) {
-                        failed = Some((MateCase::Fen { fen: p.fen6(), via_uci: false }, f));
+                    if let Err(f) = self.judge(p, lab, false, (i % 8) as u8, ev) {
+                        failed = Some((MateCase::Fen { fen: p.fen6(), via_uci: false, history: (i % 8) as u8 }, f));
                     }
                 });
                 ev.class_n(&format!("exhaustive_K{}K_labelled_positions", x as char), n);
